@@ -31,6 +31,7 @@ type scriptedGen struct {
 	reqLen   int
 	stream   []byte // stream mode when non-nil (cycled)
 	pos      int
+	seq      [][]byte // sequence mode when non-nil: the i-th request is served seq[i]; one more request aborts
 }
 
 type rejectedDraw struct{}
@@ -42,6 +43,18 @@ func (g *scriptedGen) ReadRandom(b []byte) error {
 			b[i] = g.stream[g.pos%len(g.stream)]
 			g.pos++
 		}
+		return nil
+	}
+	if g.seq != nil {
+		if g.requests > len(g.seq) {
+			panic(rejectedDraw{})
+		}
+		g.reqLen = len(b)
+		d := g.seq[g.requests-1]
+		for i := range b {
+			b[i] = 0
+		}
+		copy(b[max(0, len(b)-len(d)):], d[max(0, len(d)-len(b)):])
 		return nil
 	}
 	if g.requests > 1 {
@@ -373,6 +386,144 @@ func (k *c47) noModuloWide(ty oracle.Type, st sema.Type, r *rand.Rand, samples i
 	k.rec.Class("no-modulo/sampled/" + ty.Name)
 }
 
+// runs extends the pre-image argument over request *sequences*: a source that serves k draws each of
+// which is rejected on its own, followed by a draw d that is accepted on its own with value f(d), must
+// yield exactly f(d) after exactly k+1 requests — rejection sampling maps a draw sequence to its first
+// accepted element, never to a function of a rejected one, however long the run of rejections is.
+var c47RunLengths = []int{0, 1, 2, 5, 31, 32, 33, 64, 100, 1000}
+
+func (k *c47) runs(ty oracle.Type, st sema.Type, modulo *big.Int, r *rand.Rand) {
+	cs := c47Case{Type: ty.Name, Modulo: modulo.String(), Check: "runs"}
+	one := big.NewInt(1)
+	if new(big.Int).And(modulo, new(big.Int).Sub(modulo, one)).Sign() == 0 {
+		return // power of two: no draw is ever rejected
+	}
+	probe := &scriptedGen{first: []byte{0}}
+	if _, _, other := k.draw(ty, st, modulo, probe); other != nil {
+		k.rec.Violation(k.t, cs, "%s modulo %s: failed with %v", ty.Name, modulo, other)
+	}
+	n := probe.reqLen
+	bits := uint(modulo.BitLen()) // = bit length of modulo-1 for a non-power-of-two
+	space := new(big.Int).Lsh(one, uint(8*n))
+	maskTop := new(big.Int).Lsh(one, bits) // values in [modulo, 2^bits) are the rejected ones under any mask reading
+	garbage := func(v *big.Int) *big.Int {
+		// random bits above the modulo's bit length (inside the n requested bytes) must not matter
+		if uint(8*n) > bits && r.Intn(2) == 0 {
+			g := new(big.Int).Rand(r, new(big.Int).Rsh(space, bits))
+			return new(big.Int).Or(v, g.Lsh(g, bits))
+		}
+		return v
+	}
+	enc := func(v *big.Int) []byte { return v.FillBytes(make([]byte, n)) }
+	single := func(d []byte) (*big.Int, bool) {
+		val, ok, other := k.draw(ty, st, modulo, &scriptedGen{first: d})
+		if other != nil {
+			k.rec.Violation(k.t, cs, "%s modulo %s draw %x: failed with %v", ty.Name, modulo, d, other)
+		}
+		return val, ok
+	}
+	rejKinds := []string{"all-ones", "smallest-rejected", "random-rejected"}
+	for _, kind := range rejKinds {
+		for _, runLen := range c47RunLengths {
+			// the rejected prefix
+			seq := make([][]byte, 0, runLen+1)
+			for i := 0; i < runLen; i++ {
+				var v *big.Int
+				switch kind {
+				case "all-ones":
+					v = new(big.Int).Sub(space, one)
+				case "smallest-rejected":
+					v = garbage(new(big.Int).Set(modulo))
+				default:
+					v = new(big.Int).Rand(r, new(big.Int).Sub(maskTop, modulo))
+					v = garbage(v.Add(v, modulo))
+				}
+				d := enc(v)
+				if i < 3 || i == runLen-1 {
+					if _, ok := single(d); ok {
+						// not rejected on its own under this implementation's reading: not a usable prefix
+						k.rec.Class("runs/prefix-not-rejected")
+						seq = nil
+						break
+					}
+				}
+				seq = append(seq, d)
+			}
+			if seq == nil && runLen > 0 {
+				continue
+			}
+			// the accepted draw
+			var av *big.Int
+			switch r.Intn(3) {
+			case 0:
+				av = big.NewInt(0)
+			case 1:
+				av = new(big.Int).Sub(modulo, one)
+			default:
+				av = new(big.Int).Rand(r, modulo)
+			}
+			ad := enc(garbage(av))
+			want, ok := single(ad)
+			if !ok {
+				k.rec.Class("runs/final-not-accepted")
+				continue
+			}
+			gen := &scriptedGen{seq: append(seq, ad)}
+			got, accepted, other := k.draw(ty, st, modulo, gen)
+			nt := runLen >= 31
+			k.rec.CaseH(nt, evid.Hash("runs", ty.Name, modulo.String(), kind, runLen, fmt.Sprintf("%x", ad)))
+			k.rec.Evals(int64(runLen))
+			k.rec.Class(fmt.Sprintf("runs/k=%d", runLen))
+			k.rec.Class("runs/" + kind)
+			one47 := cs
+			one47.Draw = fmt.Sprintf("%d x %s, then %x", runLen, kind, ad)
+			if other != nil {
+				k.rec.Violation(k.t, one47, "%s modulo %s after %d rejected draws (%s): failed with %v", ty.Name, modulo, runLen, kind, other)
+			}
+			if !accepted {
+				k.rec.Violation(k.t, one47, "%s modulo %s: %d rejected draws (%s) followed by the accepted draw %x: a further request was made (%d requests)", ty.Name, modulo, runLen, kind, ad, gen.requests)
+			}
+			if gen.requests != runLen+1 {
+				k.rec.Violation(k.t, one47, "%s modulo %s: %d rejected draws (%s) followed by the accepted draw %x: %d requests were made, want %d (returned %s)", ty.Name, modulo, runLen, kind, ad, gen.requests, runLen+1, got)
+			}
+			if got.Cmp(want) != 0 || got.Cmp(modulo) >= 0 {
+				k.rec.Violation(k.t, one47, "%s modulo %s: %d rejected draws (%s) followed by the draw %x (value %s on its own) returned %s", ty.Name, modulo, runLen, kind, ad, want, got)
+			}
+			if nt && k.rec.WantSample("runs/"+ty.Name) {
+				k.rec.Sample("runs/"+ty.Name, map[string]any{"type": ty.Name, "modulo": modulo.String(), "rejected_draws": runLen, "kind": kind, "then_draw": fmt.Sprintf("%x", ad), "result": got.String()})
+			}
+		}
+	}
+}
+
+// c47RunModuli: non-power-of-two moduli for the run check (small path, big path, near powers of two, max).
+func c47RunModuli(ty oracle.Type, r *rand.Rand) []*big.Int {
+	var out []*big.Int
+	for _, m := range []int64{3, 5, 6, 7, 100, 129, 255} {
+		if ty.Fits(big.NewInt(m)) {
+			out = append(out, big.NewInt(m))
+		}
+	}
+	one := big.NewInt(1)
+	for _, kb := range []int{8, 9, 15, 16, 31, 32, 33, 63, 64, 65, 127, 128, 129, 255} {
+		if kb >= ty.Bits {
+			continue
+		}
+		p := new(big.Int).Lsh(one, uint(kb))
+		out = append(out, new(big.Int).Add(p, one))
+		if kb+2 <= ty.Bits {
+			out = append(out, new(big.Int).Mul(p, big.NewInt(3)))
+		}
+	}
+	out = append(out, new(big.Int).Set(ty.Max), new(big.Int).Add(new(big.Int).Rsh(ty.Max, 1), big.NewInt(2)))
+	for i := 0; i < 3; i++ {
+		if m := ty.Random(r); m.Sign() > 0 {
+			out = append(out, m)
+		}
+	}
+	return out
+}
+
 func (k *c47) zeroModulo(ty oracle.Type, st sema.Type) {
 	cs := c47Case{Type: ty.Name, Modulo: "0", Check: "zero"}
 	_, ok, other := k.draw(ty, st, big.NewInt(0), &scriptedGen{stream: []byte{1, 2, 3}})
@@ -478,6 +629,7 @@ func TestC47(t *testing.T) {
 		"every returned value is below the modulo, every value below the modulo is returned for the same number of draws (and at least once), and a non-power-of-two modulo rejects some draw. "+
 		"Without modulo: the map from size(T) bytes to the value is a bijection (8/16-bit exhaustively; wider: exact request length, injectivity, single-bit sensitivity and bit balance over random draws). "+
 		"Moduli beyond 2^16 (2^k, 2^k±1, 3·2^k, max, random): boundedness on adversarial (zeros, ones, alternating, modulo-1, modulo) and pseudo-random streams with a 16-bucket chi-square test. "+
+		"Request sequences: sources serving k in {0,1,2,5,31,32,33,64,100,1000} draws that are each rejected on their own (all-ones, the smallest rejected value, random rejected values, with random bits above the modulo's length) followed by a draw d accepted on its own with value f(d) must return exactly f(d) after exactly k+1 requests, for ~20 non-power-of-two moduli per type (small and big-number path). "+
 		"Zero modulo fails with the ZeroModuloError user error. A sample also runs as revertibleRandom<T>(modulo:) scripts on both engines and must agree with the library call on the same bytes. "+
 		"Non-trivial: the modulo is not a power of two. Distinct by (type, modulo); every enumerated draw is counted as an evaluation.")
 	k := &c47{rec: rec, t: t}
@@ -500,6 +652,8 @@ func TestC47(t *testing.T) {
 			k.zeroModulo(ty, st)
 		case "wide":
 			k.wide(ty, st, bi(cs.Modulo), evid.Rand(47), 30000)
+		case "runs":
+			k.runs(ty, st, bi(cs.Modulo), evid.Rand(47))
 		default:
 			k.scripts(evid.Rand(4747), evid.N(150, 1000))
 		}
@@ -514,6 +668,10 @@ func TestC47(t *testing.T) {
 		st := semaTypeByName(name)
 		r := evid.Rand(int64(evid.Hash("C47", name) % 1000003))
 		k.zeroModulo(ty, st)
+		// runs of rejected draws followed by an accepted one (every shard: cheap)
+		for _, m := range c47RunModuli(ty, r) {
+			k.runs(ty, st, m, r)
+		}
 		// 8-bit moduli: exhaustively for every type (the draw is one byte whatever the type)
 		if shard == 0 {
 			top := uint64(256)
@@ -602,7 +760,8 @@ func TestC47(t *testing.T) {
 		}
 	}
 	for _, want := range []string{"exhaustive/UInt8/non-power-of-two", "exhaustive/Word8/non-power-of-two", "exhaustive/UInt16/non-power-of-two", "exhaustive/Word256/non-power-of-two",
-		"wide/chi-square", "wide/adversarial-rejected", "wide/adversarial-accepted", "script/interpreter", "script/vm", "script/zero-modulo", "zero-modulo", "no-modulo/exhaustive/UInt16", "no-modulo/sampled/UInt64"} {
+		"wide/chi-square", "wide/adversarial-rejected", "wide/adversarial-accepted", "script/interpreter", "script/vm", "script/zero-modulo", "zero-modulo", "no-modulo/exhaustive/UInt16", "no-modulo/sampled/UInt64",
+		"runs/k=0", "runs/k=31", "runs/k=32", "runs/k=33", "runs/k=1000", "runs/all-ones", "runs/smallest-rejected", "runs/random-rejected"} {
 		if shard == 0 && rec.ClassCount(want) == 0 {
 			rec.Inconclusive(t, "class %q never generated", want)
 		}
